@@ -336,6 +336,77 @@ def handleJoin (f : List String) : String × String × String :=
       (diff, if bad.isEmpty then "-" else ",".intercalate bad, s!"join n={min l.length 4} normal={normal} res={(frm.take 3).toString}")
   | _ => ("bad-fields", "-", "-")
 
+/-- `C20.edge`: one entry point alone on an arbitrary carrier; observation = did the continuation run,
+what identifier(s) did it see, which error came back. -/
+def handleEdge (f : List String) : String × String × String :=
+  match f with
+  | [entry, spec, obs] =>
+    match spec.splitOn " ", entry.toList with
+    | [ids, car], [dir, kind, w] =>
+      let c? : Option Ctx := if ids == "none" then some [] else (hexDecode ids).map fun x => [(CKey.org, x)]
+      let showR {α} (sh : α → String) (r : Except Err α) : String :=
+        match r with
+        | .ok a => s!"ran=1 seen={sh a} err=ok"
+        | .error e => s!"ran=0 seen=x err={e.name}"
+      let m? : Option String := do
+        let c ← c?
+        if dir == 'R' ∧ kind == 'G' then
+          let r ← parseGRecv w
+          let vals ← (parseMD car).map (·.getD [])
+          pure (showR (fun (c' : Ctx) => showOpt (c'.value .org)) (recvGRPC r c vals))
+        else if dir == 'R' ∧ kind == 'H' then
+          let r ← parseHRecv w
+          let h ← parseHdr car
+          pure (showR (fun (c' : Ctx) => showOpt (c'.value .org)) (recvHTTP r c h))
+        else if dir == 'S' ∧ kind == 'G' then
+          let sn ← parseGSend w
+          let md ← parseMD car
+          pure (showR showList (sendGRPC sn c md))
+        else if dir == 'S' ∧ kind == 'H' then
+          let h ← parseHdr car
+          pure (showR showList (injectHTTP c h))
+        else none
+      match m? with
+      | none => ("bad-input", "-", "-")
+      | some m =>
+        let diff := if m == obs then "-" else "model=" ++ m
+        -- judge, from the property text on the SYNTAX of the case (never the model)
+        let parts := obs.splitOn " "
+        let ran := parts.contains "ran=1"
+        let errOk := parts.contains "err=ok"
+        let seen := ((parts.find? (·.startsWith "seen=")).map (fun x => (x.drop 5).toString)).getD "?"
+        let carVals : List String := if car == "none" ∨ car == "empty" then [] else car.splitOn ","
+        let bad : List String :=
+          if dir == 'R' then
+            -- the identifier the carrier supplies: gRPC exactly one value; HTTP a non-empty first value
+            let supplied : Option String :=
+              if kind == 'G' then (match carVals with | [x] => some x | _ => none)
+              else (match carVals with | x :: _ => if x == "-" then none else some x | [] => none)
+            match supplied with
+            | none =>
+              (if ran then ["request-without-id-accepted"] else []) ++
+              (if ran ∧ seen != "none" then ["default-id-invented"] else []) ++
+              (if !ran ∧ errOk then ["request-without-id-not-rejected"] else [])
+            | some x =>
+              (if ran ∧ seen != x then ["id-changed-in-transit"] else []) ++
+              (if !ran ∧ !(w == 't' ∧ kind == 'H' ∧ !singleTenantOK x) then ["id-lost-on-clean-stage"] else []) ++
+              (if ran ∧ w == 't' ∧ kind == 'H' ∧ !singleTenantOK x then ["single-tenant-entry-accepted-multi-or-unsafe"] else []) ++
+              (if ran != errOk then ["error-and-continuation-disagree"] else [])
+          else
+            -- sending side: nothing is sent for a context without identifier; what is sent is the identifier, alone
+            let clean := if kind == 'G' then (car == "none" || car == ids) else
+              (match carVals with | [] => true | x :: _ => x == "-" || x == ids)
+            (if ids == "none" ∧ ran then ["sent-without-id"] else []) ++
+            (if ids == "none" ∧ ran ∧ seen != "none" then ["default-id-invented"] else []) ++
+            (if ids == "none" ∧ !ran ∧ errOk then ["request-without-id-not-rejected"] else []) ++
+            (if ids != "none" ∧ ran ∧ seen != ids then ["id-changed-in-transit"] else []) ++
+            (if ids != "none" ∧ !ran ∧ clean then ["id-lost-on-clean-stage"] else []) ++
+            (if ids != "none" ∧ ran != errOk then ["error-and-continuation-disagree"] else [])
+        (diff, if bad.isEmpty then "-" else ",".intercalate bad,
+         s!"edge entry={entry} ran={ran} ctx={ids != "none"} car={min carVals.length 3}")
+    | _, _ => ("bad-input", "-", "-")
+  | _ => ("bad-fields", "-", "-")
+
 def handle (cmd : String) (f : List String) : String × String × String :=
   if cmd == "C20.id" then handleId f
   else if cmd == "C20.chain" then handleChain f
@@ -344,6 +415,7 @@ def handle (cmd : String) (f : List String) : String × String × String :=
   else if cmd == "C20.tunnel" then handleTunnel f
   else if cmd == "C20.ctx" then handleCtx f
   else if cmd == "C20.join" then handleJoin f
+  else if cmd == "C20.edge" then handleEdge f
   else ("unknown-cmd", "-", "-")
 
 end OracleC20
